@@ -573,11 +573,22 @@ func (bs bareSet) get(scratch, d string, comp bool) (*dnsserver.FBDNSDB, error) 
 	return h, nil
 }
 
+// countWriter counts the messages handed to the ResponseWriter (WriteMsg and Write)
+type countWriter struct {
+	dns.ResponseWriter
+	n int
+}
+
+func (c *countWriter) WriteMsg(m *dns.Msg) error   { c.n++; return c.ResponseWriter.WriteMsg(m) }
+func (c *countWriter) Write(b []byte) (int, error) { c.n++; return c.ResponseWriter.Write(b) }
+
 // runBare gives the wire message (unpacked as the server unpacks it) to the bare
 // handler; returns the projection of what it wrote (packed as the server's
 // writer packs it) and the message itself.
-func runBare(h *dnsserver.FBDNSDB, wire []byte, maxAns int, tcp bool) (p msgP, written *dns.Msg) {
+func runBare(h *dnsserver.FBDNSDB, wire []byte, maxAns int, tcp bool) (p msgP, written *dns.Msg, nw int) {
+	cw := &countWriter{}
 	defer func() {
+		nw = cw.n
 		if r := recover(); r != nil {
 			p = noMsg(fmt.Sprintf("panic: %v", r))
 			written = nil
@@ -585,7 +596,7 @@ func runBare(h *dnsserver.FBDNSDB, wire []byte, maxAns int, tcp bool) (p msgP, w
 	}()
 	req := new(dns.Msg)
 	if err := req.Unpack(append([]byte{}, wire...)); err != nil {
-		return noMsg("request unpack: " + err.Error()), nil
+		return noMsg("request unpack: " + err.Error()), nil, 0
 	}
 	var w dns.ResponseWriter
 	if tcp {
@@ -593,20 +604,21 @@ func runBare(h *dnsserver.FBDNSDB, wire []byte, maxAns int, tcp bool) (p msgP, w
 	} else {
 		w = &test.ResponseWriterCustomRemote{RemoteIP: "127.0.0.1"}
 	}
-	rec := dnstest.NewRecorder(w)
+	cw.ResponseWriter = w
+	rec := dnstest.NewRecorder(cw)
 	_, err := h.ServeDNSWithRCODE(dnsserver.WithMaxAnswer(context.TODO(), maxAns), rec, req)
 	if rec.Msg == nil {
 		e := "nothing written"
 		if err != nil {
 			e += ": " + err.Error()
 		}
-		return noMsg(e), nil
+		return noMsg(e), nil, 0
 	}
 	out, perr := rec.Msg.Pack()
 	if perr != nil {
-		return noMsg("pack: " + perr.Error()), nil
+		return noMsg("pack: " + perr.Error()), nil, 0
 	}
-	return projWire(out), rec.Msg
+	return projWire(out), rec.Msg, 0
 }
 
 // ---------------------------------------------------------------- transport
@@ -616,9 +628,16 @@ type exch struct {
 	local  string // client's address as the server sees it
 	remote string // server address
 	raw    []byte // reply bytes
+	extra  int    // messages that arrived after the reply (drain)
 }
 
 func exchange(proto, ip string, port int, wire []byte, timeout time.Duration) exch {
+	return exchangeSeq(proto, ip, port, nil, wire, timeout, false)
+}
+
+// exchangeSeq sends the prefix messages one by one on one connection (reading one
+// reply after each), then wire, and returns the message read after wire.
+func exchangeSeq(proto, ip string, port int, prefix [][]byte, wire []byte, timeout time.Duration, drain bool) exch {
 	addr := net.JoinHostPort(ip, fmt.Sprint(port))
 	c, err := net.DialTimeout(proto, addr, 3*time.Second)
 	if err != nil {
@@ -627,6 +646,17 @@ func exchange(proto, ip string, port int, wire []byte, timeout time.Duration) ex
 	defer c.Close()
 	co := &dns.Conn{Conn: c, UDPSize: 65535}
 	res := exch{local: c.LocalAddr().String(), remote: addr}
+	for _, pw := range prefix {
+		co.SetDeadline(time.Now().Add(timeout))
+		if _, err := co.Write(append([]byte{}, pw...)); err != nil {
+			res.reply = noMsg("prefix write: " + err.Error())
+			return res
+		}
+		if _, err := co.ReadMsgHeader(nil); err != nil {
+			res.reply = noMsg("prefix read: " + err.Error())
+			return res
+		}
+	}
 	co.SetDeadline(time.Now().Add(timeout))
 	if _, err := co.Write(append([]byte{}, wire...)); err != nil {
 		res.reply = noMsg("write: " + err.Error())
@@ -639,6 +669,15 @@ func exchange(proto, ip string, port int, wire []byte, timeout time.Duration) ex
 	}
 	res.reply = projWire(b)
 	res.raw = b
+	if drain {
+		for res.extra < 4 {
+			co.SetDeadline(time.Now().Add(120 * time.Millisecond))
+			if _, err := co.ReadMsgHeader(nil); err != nil {
+				break // timeout, or the server closed the connection: nothing more
+			}
+			res.extra++
+		}
+	}
 	return res
 }
 
@@ -679,7 +718,11 @@ type c20case struct {
 	Bare    msgP     `json:"bare"`
 	Full    *msgP    `json:"full"` // UDP cases: bare handler with TCP semantics
 	FullSz  *sizeTab `json:"full_sizes"`
-	SelfSz  *sizeTab `json:"self_sizes"` // length table of the transport reply itself
+	SelfSz  *sizeTab `json:"self_sizes"`       // length table of the transport reply itself
+	Prefix  [][]int  `json:"prefix,omitempty"` // messages sent before Wire on the same connection (input)
+	Drain   bool     `json:"drain,omitempty"`  // the socket was read again after the reply (input)
+	NWrites int      `json:"nwrites"`          // messages the bare handler handed to its ResponseWriter
+	Extra   int      `json:"extra"`            // messages that arrived after the reply on the same socket
 	Alive   bool     `json:"alive"`
 	Crash   string   `json:"crash,omitempty"`
 	Elapsed int64    `json:"ms"`
@@ -691,6 +734,11 @@ type plan struct {
 	ip    string
 	proto string
 	wire  []byte
+	// messages sent (and each answered by one read) on the same connection / socket
+	// before wire; with drain the socket is read once more after the reply, for a
+	// short time, to see that nothing else arrives
+	prefix [][]byte
+	drain  bool
 }
 
 var qnames = []string{
@@ -915,7 +963,10 @@ func (ru *runner) runGroup(conf srvConf, plans []plan, rng *hlib.Rng) ([]c20case
 		}
 		tc0 := time.Now()
 		maxAns := conf.IPs[p.ip]
-		c := c20case{Class: p.class, Conf: conf, IP: p.ip, MaxAns: maxAns, Proto: p.proto, Wire: hlib.Ints(p.wire)}
+		c := c20case{Class: p.class, Conf: conf, IP: p.ip, MaxAns: maxAns, Proto: p.proto, Wire: hlib.Ints(p.wire), Drain: p.drain}
+		for _, pw := range p.prefix {
+			c.Prefix = append(c.Prefix, hlib.Ints(pw))
+		}
 		reqMsg := new(dns.Msg)
 		if err := reqMsg.Unpack(append([]byte{}, p.wire...)); err != nil {
 			c.ReqErr = true
@@ -933,17 +984,17 @@ func (ru *runner) runGroup(conf srvConf, plans []plan, rng *hlib.Rng) ([]c20case
 		if len(p.wire) >= 3 && p.wire[2]&0x80 != 0 {
 			timeout = 250 * time.Millisecond // a response is never answered
 		}
-		ex := exchange(p.proto, p.ip, ch.port, p.wire, timeout)
+		ex := exchangeSeq(p.proto, p.ip, ch.port, p.prefix, p.wire, timeout, p.drain)
 		// a lost datagram, or a TCP read deadline (2 s) missed by a starved server
 		// process on a loaded machine: ask again (a dead server is noticed below)
 		for try := 0; try < 2 && !ex.reply.Got && timeout > time.Second && !ch.exited(); try++ {
-			ex = exchange(p.proto, p.ip, ch.port, p.wire, timeout)
+			ex = exchangeSeq(p.proto, p.ip, ch.port, p.prefix, p.wire, timeout, p.drain) // fresh connection, whole sequence
 		}
-		c.Reply, c.Source, c.Dest = ex.reply, ex.local, ex.remote
+		c.Reply, c.Source, c.Dest, c.Extra = ex.reply, ex.local, ex.remote, ex.extra
 		if !c.ReqErr {
-			c.Bare, _ = runBare(bh, p.wire, maxAns, p.proto == "tcp")
+			c.Bare, _, c.NWrites = runBare(bh, p.wire, maxAns, p.proto == "tcp")
 			if p.proto == "udp" {
-				fp, fm := runBare(bh, p.wire, maxAns, true)
+				fp, fm, _ := runBare(bh, p.wire, maxAns, true)
 				c.Full = &fp
 				if fm != nil {
 					st := sizesOf(fm)
@@ -1038,6 +1089,16 @@ func run(a *hlib.Args, e *hlib.Emitter) error {
 			json.Unmarshal(m["proto"], &p.proto)
 			json.Unmarshal(m["wire"], &wire)
 			p.wire = hlib.Unints(wire)
+			var prefix [][]int
+			if raw, ok := m["prefix"]; ok {
+				json.Unmarshal(raw, &prefix)
+			}
+			for _, pw := range prefix {
+				p.prefix = append(p.prefix, hlib.Unints(pw))
+			}
+			if raw, ok := m["drain"]; ok {
+				json.Unmarshal(raw, &p.drain)
+			}
 			addPlan(conf, p)
 		}
 	} else {
@@ -1068,6 +1129,31 @@ func run(a *hlib.Args, e *hlib.Emitter) error {
 		}
 	}
 	if a.Replay == "" {
+		// always part of a run: two or three queries over ONE connection / socket, the
+		// first for a name outside every zone (REFUSED), then served names with other
+		// ids.  Each position is its own case (the earlier messages are its prefix);
+		// the reply read after a query must be that query's, and nothing may follow.
+		for ci, conf := range ru.confs {
+			seq := []*dns.Msg{new(dns.Msg), new(dns.Msg), new(dns.Msg)}
+			seq[0].SetQuestion([]string{"example.org.", "outside.example.", "test."}[ci%3], dns.TypeA)
+			seq[1].SetQuestion("one.c20.test.", dns.TypeA)
+			seq[2].SetQuestion("txt.c20.test.", dns.TypeTXT)
+			var wires [][]byte
+			for i, m := range seq {
+				m.Id = uint16(9000 + 16*ci + i)
+				w, err := m.Pack()
+				if err != nil {
+					return err
+				}
+				wires = append(wires, w)
+			}
+			ip := fmt.Sprintf("127.0.0.%d", 1+ci%4)
+			for _, proto := range []string{"udp", "tcp"} {
+				for i := range wires {
+					addPlan(conf, plan{class: fmt.Sprintf("seq%d", i+1), ip: ip, proto: proto, wire: wires[i], prefix: wires[:i], drain: true})
+				}
+			}
+		}
 		// always part of a run: ANY questions in every class other than IN for names
 		// that exist in the database, on every refuse-any configuration, over both
 		// transports (the ANY handler looks at the type only)
@@ -1140,7 +1226,7 @@ func run(a *hlib.Args, e *hlib.Emitter) error {
 				}
 				ip := fmt.Sprintf("127.0.0.%d", 1+kk%4)
 				sizes := []int{[]int{512, 600, 1232}[kk%3], []int{600, 1232, 512}[kk%3]}
-				if _, fm := runBare(bh, mk(q, es, 4096, 1), conf.IPs[ip], true); fm != nil {
+				if _, fm, _ := runBare(bh, mk(q, es, 4096, 1), conf.IPs[ip], true); fm != nil {
 					u := sizesOf(fm).Ulen
 					for _, d := range []int{1, 9} {
 						if u-d >= 512 {
